@@ -19,7 +19,10 @@ META = {
         'mapping; (snapshot) a local copy of the derived `references` property '
         'is never used after a call that can load a workbook without being '
         're-read, so the names a cell is compiled with do not depend on the '
-        'order in which the work-list met the workbooks.'),
+        'order in which the work-list met the workbooks; (refs) both load '
+        'paths (workbook and dictionary) resolve defined names on the nodes '
+        'their references added and compile the cells against that complete '
+        'table.'),
     'not_decided': (
         'That each formula cell holds the value of its formula (the fixed '
         'point), range/blank wiring and equality of the two load paths.'),
@@ -228,6 +231,11 @@ SCOPE = ['formulas/excel/__init__.py', 'formulas/cell.py', 'formulas/ranges.py',
          'formulas/builder.py', 'formulas/excel/cycle.py']
 
 
+def _refs(ctx):
+    from .c09 import rule_refs, _retag
+    return _retag(rule_refs(ctx), 'C03', 'C03.refs')
+
+
 def run(ctx):
     funcs = []
     for rel in SCOPE:
@@ -237,4 +245,5 @@ def run(ctx):
     return [rule_ord(ctx, funcs, prop='C03', rule='C03.ord', floor=5),
             rule_pair(ctx),
             rule_snapshot(ctx, 'C03', 'C03.snapshot'),
+            _refs(ctx),
             rule_cachekey(ctx, 'C03', 'C03.cachekey', SCOPE)]
